@@ -274,6 +274,13 @@ func checkC19(c *core.Ctx) {
 			r8.OK("decode/window-reslices", "", "no fixed-length window of the input is re-sliced by an unbounded packet value")
 		}
 	}
+	r9 := c.Rule("R19.9", "D", "slices indexed by a caller-supplied signed layer type in decode-reachable code are guarded on both sides, strictly (= R5.5)")
+	{
+		reach := c.P.Roots().DecReach
+		signedIndexRule(c, r9, func(fn *ssa.Function) bool { return reach[fn] && core.FnPkg(fn) != nil && core.FnPkg(fn).Path() == core.Mod })
+	}
+	r10 := c.Rule("R19.10", "D", "DecodeFromBytes reads no integer/bool field of its receiver before storing it in the same call: a stale value from an earlier packet is not covered by this call's length checks (= R5.9)")
+	staleFieldReads(c, r10)
 	r5 := c.Rule("R19.5", "D", "length arithmetic on packet values is not done in uint8/uint16 where it can wrap before the result is used as a slice bound, index or length test")
 	narrowLengths(c, r5)
 	r4 := c.Rule("R19.4", "D", "cursor helpers: constant reads through a *[]byte cursor are covered by a length guard on the cursor's current contents, in the helper or at every call site")
